@@ -136,6 +136,13 @@ def run(ck, F):
             # the file whose text is parsed
             rootkey = lambda o: ("arg", o.local) if o.kind == "arg" else ("call", o.bb) if o.kind == "call" else None
             xml_roots = {rootkey(o) for o in M.trace(B, pt["args"][0]) if rootkey(o)}
+            # (the text may be asked of the file through an accessor of the crate — `file.xml()?`, which reads it on first use —:
+            # whose text it is is the accessor's receiver)
+            for o in M.trace(B, pt["args"][0], M.IDENTITY_CALLS + ("ops::Try::branch",)):
+                if o.kind == "arg":
+                    xml_roots.add(rootkey(o))
+                if o.kind == "call" and o.term.get("args") and F.lib.body(M.Body.callee(o.term) or M.Body.callee_decl(o.term) or "") is not None:
+                    xml_roots |= {rootkey(o2) for o2 in M.trace(B, o.term["args"][0]) if rootkey(o2)}
             loads = []
             for bb, t in B.calls_to(C12.ATOMIC_LOAD) + _test_and_set(B):
                 os_ = M.trace(B, t["args"][0])
@@ -204,7 +211,7 @@ def run(ck, F):
             if kinds - {"propagated", "returned", "unwrapped"}:
                 ck.violation("R2", "import-result-dropped", B.term(cbb).get("sp"), f"the document read for an import is neither merged nor returned ({flows})", fn=fn)
     # ---- R3 keyed access
-    allowed = ("::get", "::get_key_value", "::insert", "::contains_key", "::from", "::len", "::is_empty", "::new")
+    allowed = ("::get", "::get_key_value", "::insert", "::contains_key", "::from", "::len", "::is_empty", "::new", "::entry")
     n_acc = 0
     for b in scans.bodies(F.lib):
         if "yaserde_tests" in b["path"]:
@@ -245,8 +252,28 @@ def run(ck, F):
         if CBi is not None:
             units.append(CBi)
     found_calls = [(Bx, c_) for Bx in units for c_ in Bx.calls_to("reader::Files::add") + Bx.calls_to("reader::Files::new")]
-    ck.floor("R4", "Files::new/add calls", len(found_calls), 2)
     ident = M.IDENTITY_CALLS + ("ops::Try::branch", "Option::<T>::ok_or", "Option::<T>::ok_or_else", "Option::<T>::unwrap", "Option::<T>::expect")
+    # .. or a file is registered by its path only and read when an import first asks for it: a method of the file table that is handed
+    # (name, path), stores the path in the entry it makes under the name, and an accessor of the entry that reads that path
+    by_path = []
+    for Bx in units:
+        for bb_, t_ in Bx.calls():
+            cal = M.Body.callee(t_) or M.Body.callee_decl(t_) or ""
+            if not cal.startswith(("reader::Files::", "<reader::Files")) or cal.endswith(("::add", "::new")) or len(t_.get("args", [])) != 3:
+                continue
+            if "Path" in str(Bx.local_ty(t_["args"][2]["p"]["l"])) if t_["args"][2].get("k") in ("copy", "move") else False:
+                by_path.append((Bx, (bb_, t_)))
+    ck.floor("R4", "Files::new/add calls", len(found_calls) + len(by_path), 2)
+    for B, (bb, t) in by_path:
+        key_paths, key_ok = _file_name_sources(F, B, t["args"][1], ident)
+        same = key_ok and bool(key_paths) and key_paths <= _roots(B, t["args"][2])
+        reads = [b_["path"] for b_ in scans.bodies(F.lib) if b_["path"].startswith(("reader::", "<reader::")) and "tests::" not in b_["path"]
+                 and any(any("path" in o.fields() for o in M.trace(M.Body(b_), t2["args"][0])) for _b2, t2 in M.Body(b_).calls_to("fs::read_to_string"))]
+        if same and reads:
+            ck.ok("R4", "keyed-by-file-name#path", B.term(bb).get("sp"), f"file registered under its file_name() with the path it is read from when first asked for ({reads[0]})", fn=ub["path"])
+        else:
+            ck.violation("R4", "registration#path", B.term(bb).get("sp"),
+                         f"a file is registered by path, but not as (file_name(path), path) of one path that the file table reads itself (key ok: {same}, read by: {reads})", fn=ub["path"])
     for B, (bb, t) in found_calls:
         is_add = (M.Body.callee_decl(t) or "").endswith("add")
         key_arg = t["args"][1] if is_add else t["args"][0]
